@@ -1,180 +1,659 @@
 package main
 
 import (
-	"bytes"
 	"fmt"
 	"go/ast"
-	"go/parser"
-	"go/printer"
 	"go/token"
-	"path/filepath"
+	"go/types"
+	"sort"
 	"strconv"
 	"strings"
 )
 
 // C19Skel: the synchronisation / data-flow skeleton of JSONHybridHandler
-// (logutil/slogutil/jsonhybrid.go), re-emitted from the current source on every run:
+// (logutil/slogutil/jsonhybrid.go), re-emitted from the current source on every run, in a
+// NORMAL FORM computed by the symbolic executor of c19sym.go (see there for what is
+// normalised away and what fails loudly):
 //
-//   - handle:     the ordered events (kind, name) of (*JSONHybridHandler).Handle, kind being
-//     call / defer / if / else / endif / return: pool Get/Put, buffer
-//     reset, Record.Clone / AddAttrs, the text handler call, reading the
-//     buffer, the slice expression, building the message, mutex Lock/Unlock,
-//     Encode, with defer / if / return markers;
-//   - withAttrs:  the fields of the composite literal WithAttrs returns;
-//   - enabled, severityCond, severityStrings: the two comparisons and the two strings.
+//   - handle:     the paths of (*JSONHybridHandler).Handle after inlining every function
+//     of the package; a path is the list of its events (kind, text), kind being
+//     call / defer (registration) / run (a deferred call running) / store /
+//     assume / assume-not (an undecided branch) / return / panic.  The events
+//     are exactly the operations on the shared and pooled objects (the handler's
+//     fields, identified by type: pool, mutex, encoder, attributes; whatever
+//     Get returned), with their arguments as data-flow terms.
+//   - withAttrs:  the paths of WithAttrs; its return is summarised per leaf field of the
+//     handler struct: an object with identity (mutex, encoder, pool) is
+//     `shared` with the receiver, `copied` or `fresh`; a plain value is given
+//     as a term; the attribute slice by the contract the computation satisfies
+//     (contents, where it writes, spare capacity, aliasing of the argument).
+//   - enabled:    the paths of Enabled with the canonical form of the comparison.
+//   - severity:   the `severity` member of the object handed to Encode, as a term.
+//   - fieldWrites: every store into a field of the handler (or of a struct reachable from
+//     it) outside the function that allocates the struct.
 //
 // The transition system Model/C19Lts.lean and the model Model/C19.lean were written
-// against these; Theorems/C19.lean proves `Gen = expected`, so an edit of the
-// synchronisation structure (a dropped Lock, Put before Encode, a removed Clip or
-// Clone, > instead of >=) is a broken obligation.  A call the translator does not
-// know makes it fail loudly.
+// against these; Theorems/C19.lean proves `Gen = expected`.
 
-func c19Expr(fset *token.FileSet, e ast.Node) string {
-	var b bytes.Buffer
-	_ = printer.Fprint(&b, fset, e)
-	return strings.Join(strings.Fields(b.String()), " ")
+var c19PureCallees = map[string]bool{
+	"fmt.Errorf": true, "fmt.Sprintf": true, "fmt.Sprint": true, "fmt.Sprintln": true,
+	"errors.New": true, "errors.Is": true, "errors.As": true, "errors.Unwrap": true, "errors.Join": true,
+	"errors.Annotate": true, "errors.Error.Error": true,
+	"slices.Clip": true, "slices.Clone": true, "slices.Grow": true, "slices.Concat": true,
+	"bytes.TrimSuffix": true, "bytes.TrimRight": true, "bytes.TrimSpace": true, "bytes.Clone": true, "bytes.HasSuffix": true,
+	"strings.TrimSuffix": true, "strings.TrimRight": true, "strings.TrimSpace": true, "strings.HasSuffix": true,
+	"slog.Record.Clone": true, "slog.Record.NumAttrs": true, "slog.Level.String": true,
 }
 
-// c19CallEvent classifies a call inside Handle; ok=false for calls that are irrelevant
-// to the skeleton; an error for calls outside the known set.
-func c19CallEvent(fset *token.FileSet, call *ast.CallExpr) (ev string, ok bool, err error) {
-	name := c19Expr(fset, call.Fun)
-	switch {
-	case strings.HasSuffix(name, ".bufTextPool.Get"):
-		return "poolGet", true, nil
-	case strings.HasSuffix(name, ".bufTextPool.Put"):
-		return "poolPut", true, nil
-	case strings.HasSuffix(name, ".reset"):
-		return "reset", true, nil
-	case name == "r.Clone":
-		return "clone", true, nil
-	case name == "r.AddAttrs":
-		return "addAttrs(" + c19Args(fset, call) + ")", true, nil
-	case strings.HasSuffix(name, ".handler.Handle"):
-		return "textHandle", true, nil
-	case strings.HasSuffix(name, ".buffer.Bytes"):
-		return "bufBytes", true, nil
-	case name == "newJSONHybridMessage":
-		return "newMsg(" + c19Args(fset, call) + ")", true, nil
-	case strings.HasSuffix(name, ".mu.Lock"):
-		return "lock", true, nil
-	case strings.HasSuffix(name, ".mu.Unlock"):
-		return "unlock", true, nil
-	case strings.HasSuffix(name, ".encoder.Encode"):
-		return "encode", true, nil
-	case name == "fmt.Errorf", name == "len", name == "byteString":
-		return "", false, nil
+var c19IdentityCallees = map[string]bool{
+	"slog.Level.Level": true, // func (l Level) Level() Level { return l }
+}
+
+var c19SyncPkgs = map[string]bool{
+	"sync": true, "sync/atomic": true, "github.com/AdguardTeam/golibs/syncutil": true,
+	"time": true, "runtime": true, "os/signal": true,
+}
+
+// operations of foreign value types that leave the exported fields of their receiver
+// unchanged: x.Clone().Level = x.Level, and AddAttrs only adds attributes.
+var c19Preserve = map[string][]string{
+	"slog.Record": {"slog.Record.Clone", "slog.Record.AddAttrs", "slog.Record.Add"},
+}
+
+func c19Configure(x *c19Exec) {
+	x.pure = c19PureCallees
+	x.identity = c19IdentityCallees
+	x.syncPkgs = c19SyncPkgs
+	x.preserve = c19Preserve
+}
+
+/* ---------- linear expressions over non-negative atoms (lengths) ---------- */
+
+type c19Lin struct {
+	c  int64
+	co map[string]int64
+}
+
+func c19LinConst(c int64) c19Lin { return c19Lin{c: c, co: map[string]int64{}} }
+
+func (a c19Lin) add(b c19Lin, sign int64) c19Lin {
+	out := c19Lin{c: a.c + sign*b.c, co: map[string]int64{}}
+	for k, v := range a.co {
+		out.co[k] = v
 	}
-	return "", false, fmt.Errorf("Handle calls %s, which the C19 skeleton translator does not know", name)
-}
-
-func c19Args(fset *token.FileSet, call *ast.CallExpr) string {
-	var as []string
-	for _, a := range call.Args {
-		as = append(as, c19Expr(fset, a))
+	for k, v := range b.co {
+		out.co[k] += sign * v
+		if out.co[k] == 0 {
+			delete(out.co, k)
+		}
 	}
-	s := strings.Join(as, ", ")
-	if call.Ellipsis.IsValid() {
-		s += "..."
+	return out
+}
+
+// subst sets the atoms in zero to 0
+func (a c19Lin) subst(zero map[string]bool) c19Lin {
+	out := c19Lin{c: a.c, co: map[string]int64{}}
+	for k, v := range a.co {
+		if !zero[k] {
+			out.co[k] = v
+		}
 	}
-	return s
+	return out
 }
 
-type c19Walker struct {
-	fset   *token.FileSet
-	events []string
-	err    error
-}
+func (a c19Lin) isZero() bool { return a.c == 0 && len(a.co) == 0 }
 
-func (w *c19Walker) exprEvents(e ast.Node, prefix string) {
-	// calls in evaluation order: arguments before the call itself
-	ast.Inspect(e, func(n ast.Node) bool {
-		if w.err != nil {
+// nonNeg: provably >= 0 for all non-negative atoms
+func (a c19Lin) nonNeg() bool {
+	if a.c < 0 {
+		return false
+	}
+	for _, v := range a.co {
+		if v < 0 {
 			return false
 		}
-		switch x := n.(type) {
-		case *ast.FuncLit:
-			w.err = fmt.Errorf("function literal in Handle: outside the translator's subset")
-			return false
-		case *ast.CallExpr:
-			for _, a := range x.Args {
-				w.exprEvents(a, prefix)
-			}
-			w.exprEvents(x.Fun, prefix)
-			ev, ok, err := c19CallEvent(w.fset, x)
-			if err != nil {
-				w.err = err
-				return false
-			}
-			if ok {
-				w.events = append(w.events, c19Kind(prefix)+"\x00"+ev)
-			}
-			return false
-		case *ast.SliceExpr:
-			w.exprEvents(x.X, prefix)
-			w.events = append(w.events, c19Kind(prefix)+"\x00slice("+c19Expr(w.fset, x)+")")
-			return false
-		}
-		return true
-	})
+	}
+	return true
 }
 
-func (w *c19Walker) stmts(list []ast.Stmt) {
-	for _, s := range list {
-		if w.err != nil {
-			return
+type c19Seg struct {
+	src string // rendered source slice
+	n   c19Lin // its whole length
+}
+
+type c19Abs struct {
+	ok      bool
+	arr     string // "nil" | "fresh" | "ext"
+	ext     string // arr == "ext": the source slice whose array this is
+	mayExt  string // a possible alias of a source slice's elements (read-only view)
+	segs    []c19Seg
+	length  c19Lin
+	spare   string // "zero" | "fresh" | "any"
+	unknown string
+}
+
+type c19SliceSum struct {
+	x      *c19Exec
+	zero   map[string]bool
+	writes []string
+	copyN  map[string]c19Lin // fresh id / op index -> number of elements copied
+}
+
+func (s *c19SliceSum) lin(t *c19Term) (c19Lin, bool) {
+	if t == nil {
+		return c19Lin{}, false
+	}
+	switch t.k {
+	case "const":
+		v, err := strconv.ParseInt(t.s, 10, 64)
+		if err != nil {
+			return c19Lin{}, false
 		}
-		switch x := s.(type) {
-		case *ast.DeferStmt:
-			w.exprEvents(x.Call, "defer ")
-		case *ast.GoStmt:
-			w.err = fmt.Errorf("go statement in Handle: outside the translator's subset")
-		case *ast.IfStmt:
-			if x.Init != nil {
-				w.stmts([]ast.Stmt{x.Init})
+		return c19LinConst(v), true
+	case "pure":
+		if t.s == "len" && len(t.a) == 1 {
+			if t.a[0].k == "make" {
+				return s.lin(t.a[0].a[0])
 			}
-			w.exprEvents(x.Cond, "")
-			w.events = append(w.events, "if\x00"+c19Expr(w.fset, x.Cond))
-			w.stmts(x.Body.List)
-			if x.Else != nil {
-				w.events = append(w.events, "else\x00")
-				switch e := x.Else.(type) {
-				case *ast.BlockStmt:
-					w.stmts(e.List)
-				default:
-					w.stmts([]ast.Stmt{e})
+			if t.a[0].k == "nil" {
+				return c19LinConst(0), true
+			}
+			l := c19LinConst(0)
+			l.co["len("+c19Render(t.a[0])+")"] = 1
+			return l, true
+		}
+	case "bin":
+		a, ok1 := s.lin(t.a[0])
+		b, ok2 := s.lin(t.a[1])
+		if ok1 && ok2 {
+			switch t.s {
+			case "+":
+				return a.add(b, 1), true
+			case "-":
+				return a.add(b, -1), true
+			}
+		}
+	case "copyn":
+		if l, ok := s.copyN[fmt.Sprintf("%s/%d", t.s, t.n)]; ok {
+			return l, true
+		}
+	}
+	return c19Lin{}, false
+}
+
+func (s *c19SliceSum) source(t *c19Term) c19Abs {
+	r := c19Render(t)
+	l := c19LinConst(0)
+	l.co["len("+r+")"] = 1
+	return c19Abs{ok: true, arr: "ext", ext: r, segs: []c19Seg{{r, l}}, length: l, spare: "any"}
+}
+
+func (s *c19SliceSum) bad(t *c19Term, why string) c19Abs {
+	return c19Abs{unknown: why + ": " + c19Render(t)}
+}
+
+// eval computes the abstract value(s) of a slice-typed term.
+func (s *c19SliceSum) eval(t *c19Term) []c19Abs {
+	switch t.k {
+	case "nil", "zero":
+		return []c19Abs{{ok: true, arr: "nil", length: c19LinConst(0), spare: "zero"}}
+	case "field", "param":
+		return []c19Abs{s.source(t)}
+	case "pure":
+		switch t.s {
+		case "slices.Clip":
+			out := s.eval(t.a[0])
+			for i := range out {
+				if out[i].ok && out[i].spare == "any" {
+					out[i].spare = "zero"
 				}
 			}
-			w.events = append(w.events, "endif\x00")
-		case *ast.ForStmt, *ast.RangeStmt, *ast.SelectStmt, *ast.SwitchStmt, *ast.TypeSwitchStmt:
-			w.err = fmt.Errorf("loop/switch/select in Handle: outside the translator's subset")
-		case *ast.ReturnStmt:
-			for _, r := range x.Results {
-				w.exprEvents(r, "")
+			return out
+		case "slices.Clone":
+			out := s.eval(t.a[0])
+			for i := range out {
+				if out[i].ok {
+					out[i].arr, out[i].ext, out[i].mayExt, out[i].spare = "fresh", "", "", "fresh"
+				}
 			}
-			w.events = append(w.events, "return\x00")
-		case *ast.BlockStmt:
-			w.stmts(x.List)
-		default:
-			w.exprEvents(s, "")
+			return out
+		case "slices.Concat":
+			res := c19Abs{ok: true, arr: "fresh", spare: "fresh", length: c19LinConst(0)}
+			for _, a := range t.a {
+				as := s.eval(a)
+				if len(as) != 1 || !as[0].ok {
+					return []c19Abs{s.bad(t, "concat of an unknown slice")}
+				}
+				res.segs = append(res.segs, as[0].segs...)
+				res.length = res.length.add(as[0].length, 1)
+			}
+			return []c19Abs{res}
+		case "slices.Grow":
+			var out []c19Abs
+			for _, a := range s.eval(t.a[0]) {
+				if !a.ok {
+					out = append(out, a)
+					continue
+				}
+				// either the slice itself (enough capacity, or n = 0) ...
+				self := a
+				out = append(out, self)
+				// ... or a reallocated copy with spare capacity of its own
+				cp := a
+				cp.arr, cp.ext, cp.mayExt, cp.spare = "fresh", "", "", "fresh"
+				out = append(out, cp)
+			}
+			return out
+		}
+	case "slice":
+		// x[:len(x):len(x)] is Clip
+		if t.a[1] == nil && t.a[2] != nil && t.a[3] != nil {
+			want := "len(" + c19Render(t.a[0]) + ")"
+			if c19Render(t.a[2]) == want && c19Render(t.a[3]) == want {
+				out := s.eval(t.a[0])
+				for i := range out {
+					if out[i].ok && out[i].spare == "any" {
+						out[i].spare = "zero"
+					}
+				}
+				return out
+			}
+		}
+		return []c19Abs{s.bad(t, "slice expression")}
+	case "append":
+		if len(t.a) == 0 {
+			return []c19Abs{s.bad(t, "append")}
+		}
+		var added []c19Seg
+		addLen := c19LinConst(0)
+		if t.s == "..." && len(t.a) == 2 {
+			ys := s.eval(t.a[1])
+			if len(ys) != 1 || !ys[0].ok {
+				return []c19Abs{s.bad(t, "append of an unknown slice")}
+			}
+			added, addLen = ys[0].segs, ys[0].length
+		} else {
+			for _, e := range t.a[1:] {
+				added = append(added, c19Seg{"elem:" + c19Render(e), c19LinConst(1)})
+				addLen = addLen.add(c19LinConst(1), 1)
+			}
+		}
+		var out []c19Abs
+		for _, a := range s.eval(t.a[0]) {
+			if !a.ok {
+				out = append(out, a)
+				continue
+			}
+			r := a
+			r.segs = append(append([]c19Seg{}, a.segs...), added...)
+			r.length = a.length.add(addLen, 1)
+			switch a.arr {
+			case "fresh":
+				r.spare = "fresh"
+			case "nil":
+				// append(nil, ys...) is nil or a new array
+				r.arr, r.spare = "fresh", "fresh"
+			case "ext":
+				if a.spare == "zero" {
+					// no room: nothing is written unless a new array is allocated; with nothing to
+					// append the result is the argument itself (a read-only view of its elements)
+					r.arr, r.mayExt, r.ext, r.spare = "fresh", a.ext, "", "fresh"
+				} else if !addLen.subst(s.zero).isZero() {
+					// room that others may also see: the elements are written in place
+					s.writes = append(s.writes, a.ext)
+					r.spare = "any"
+				}
+			}
+			out = append(out, r)
+		}
+		return out
+	case "make":
+		ln, ok := s.lin(t.a[0])
+		if !ok {
+			return []c19Abs{s.bad(t, "make with a length that is not a sum of lengths")}
+		}
+		res := c19Abs{ok: true, arr: "fresh", spare: "fresh", length: ln}
+		filled := c19LinConst(0)
+		for i, op := range t.a[2:] {
+			dst, src := op.a[0], op.a[1]
+			off := c19LinConst(0)
+			if dst.k == "slice" {
+				if dst.a[2] != nil || dst.a[3] != nil || dst.a[0].k != "self" {
+					return []c19Abs{s.bad(t, "copy into a bounded sub-slice")}
+				}
+				if dst.a[1] != nil {
+					o, ok := s.lin(dst.a[1])
+					if !ok {
+						return []c19Abs{s.bad(t, "copy at an offset that is not a sum of lengths")}
+					}
+					off = o
+				}
+			} else if dst.k != "self" {
+				return []c19Abs{s.bad(t, "element store")}
+			}
+			ss := s.eval(src)
+			if len(ss) != 1 || !ss[0].ok {
+				return []c19Abs{s.bad(t, "copy of an unknown slice")}
+			}
+			// sequential fill: the destination starts where the previous copy ended, and has room
+			if !off.add(filled, -1).subst(s.zero).isZero() {
+				return []c19Abs{s.bad(t, "copies that do not fill the array from left to right")}
+			}
+			room := ln.add(off, -1).add(ss[0].length, -1)
+			if !room.subst(s.zero).nonNeg() {
+				return []c19Abs{s.bad(t, "copy that may be truncated")}
+			}
+			s.copyN[fmt.Sprintf("%d/%d", t.n, i+1)] = ss[0].length
+			res.segs = append(res.segs, ss[0].segs...)
+			filled = filled.add(ss[0].length, 1)
+		}
+		if !ln.add(filled, -1).subst(s.zero).isZero() {
+			// the rest of the array holds zero values
+			res.segs = append(res.segs, c19Seg{"zeros", ln.add(filled, -1)})
+		}
+		if t.a[1] != nil {
+			if cp, ok := s.lin(t.a[1]); !ok || !cp.add(ln, -1).subst(s.zero).isZero() {
+				res.spare = "fresh"
+			}
+		}
+		return []c19Abs{res}
+	}
+	return []c19Abs{s.bad(t, "slice computation outside the summariser's subset")}
+}
+
+// c19SummariseSlice: the contract the computation of the derived attribute slice satisfies,
+// relative to the parent's slice and the argument.
+func c19SummariseSlice(x *c19Exec, t, parent, added *c19Term) string {
+	s := &c19SliceSum{x: x, zero: map[string]bool{}, copyN: map[string]c19Lin{}}
+	// path facts of the form  (sum of lengths) == 0  make every atom zero
+	for _, f := range x.factList {
+		if f.v && f.c.k == "cmp" && f.c.s == "==" {
+			a, ok1 := s.lin(f.c.a[0])
+			b, ok2 := s.lin(f.c.a[1])
+			if ok1 && ok2 {
+				d := a.add(b, -1)
+				neg := d.add(c19LinConst(0), 1)
+				allPos, allNeg := d.c == 0, d.c == 0
+				for _, v := range neg.co {
+					if v < 0 {
+						allPos = false
+					}
+					if v > 0 {
+						allNeg = false
+					}
+				}
+				if allPos || allNeg {
+					for k := range d.co {
+						s.zero[k] = true
+					}
+				}
+			}
 		}
 	}
+	ft := x.freeze(t)
+	alts := s.eval(ft)
+	p, a := c19Render(x.freeze(parent)), c19Render(x.freeze(added))
+	norm := func(segs []c19Seg) string {
+		var out []string
+		for _, g := range segs {
+			if g.n.subst(s.zero).isZero() {
+				continue
+			}
+			out = append(out, g.src)
+		}
+		return "[" + strings.Join(out, ", ") + "]"
+	}
+	lp, la := c19LinConst(0), c19LinConst(0)
+	lp.co["len("+p+")"] = 1
+	la.co["len("+a+")"] = 1
+	want := norm([]c19Seg{{p, lp}, {a, la}})
+	contents, spare, alias := "", "unshared", "no"
+	for _, alt := range alts {
+		if !alt.ok {
+			return "unknown(" + alt.unknown + ")"
+		}
+		got := norm(alt.segs)
+		c := "parent++added"
+		if got != want {
+			c = got
+		}
+		if contents == "" {
+			contents = c
+		} else if contents != c {
+			contents += " | " + c
+		}
+		if alt.arr == "ext" && alt.spare == "any" {
+			spare = "shared with " + alt.ext
+		}
+		if (alt.arr == "ext" && alt.ext == a) || alt.mayExt == a {
+			alias = "yes"
+		}
+	}
+	writes := "fresh-only"
+	if len(s.writes) > 0 {
+		sort.Strings(s.writes)
+		writes = "in place into the array of " + strings.Join(s.writes, ", ")
+	}
+	return "contents=" + contents + "; writes=" + writes + "; spare=" + spare + "; aliases-argument=" + alias
 }
 
-func c19Kind(prefix string) string {
-	if prefix == "defer " {
-		return "defer"
+/* ---------- WithAttrs: summary of the returned handler ---------- */
+
+func (p *c19Pkg) c19HandlerSummary(recvT *types.Named, node ast.Node) func(x *c19Exec, vals []*c19Term) []*c19Term {
+	return func(x *c19Exec, vals []*c19Term) []*c19Term {
+		if len(vals) != 1 {
+			x.fail(node, "WithAttrs returns %d values", len(vals))
+		}
+		v := vals[0]
+		if v.k == "recv" {
+			return []*c19Term{c19T("summary", "the receiver itself")}
+		}
+		if v.k != "alloc" || p.localStruct(x.allocs[v.n].typ) != recvT {
+			return []*c19Term{c19T("summary", "not a newly allocated handler: "+c19Render(x.freeze(v)))}
+		}
+		var attrsParam *c19Term
+		var out []string
+		for _, l := range p.structLeaves(recvT) {
+			cur := v
+			ownerT := types.Type(recvT)
+			viaPtr := false
+			allocated := true
+			for _, f := range l.path {
+				if cur.k == "alloc" {
+					cur = x.allocs[cur.n].fields[f.Name()]
+					if cur.k != "alloc" {
+						allocated = false
+						if _, isPtr := f.Type().Underlying().(*types.Pointer); isPtr {
+							viaPtr = true
+						}
+					}
+				} else {
+					cur = x.field(node, cur, f, ownerT)
+					if _, isPtr := f.Type().Underlying().(*types.Pointer); isPtr {
+						viaPtr = true
+					}
+				}
+				ownerT = f.Type()
+			}
+			leaf := l.path[len(l.path)-1]
+			own := "h.<" + l.key + ">"
+			rendered := c19Render(x.freeze(cur))
+			lt := p.effType(leaf)
+			desc := ""
+			switch lt.Underlying().(type) {
+			case *types.Slice:
+				parent := &c19Term{k: "field", s: "<" + l.key + ">", a: []*c19Term{c19T("recv", "")}, v: leaf}
+				if attrsParam == nil {
+					attrsParam = &c19Term{k: "param", n: 1}
+				}
+				desc = c19SummariseSlice(x, cur, parent, attrsParam)
+			case *types.Basic:
+				desc = "=" + rendered
+			case *types.Pointer, *types.Interface, *types.Map, *types.Chan, *types.Signature:
+				if rendered == own {
+					desc = "shared"
+				} else if allocated || cur.k == "zero" || cur.k == "nil" {
+					desc = "fresh(" + rendered + ")"
+				} else {
+					desc = "other(" + rendered + ")"
+				}
+			default:
+				// an object with identity held by value
+				if rendered == own && viaPtr {
+					desc = "shared"
+				} else if rendered == own {
+					desc = "copied"
+				} else {
+					desc = "fresh(" + rendered + ")"
+				}
+			}
+			out = append(out, l.key+": "+desc)
+		}
+		sort.Strings(out)
+		ts := make([]*c19Term, len(out))
+		for i, s := range out {
+			ts[i] = c19T("summary", s)
+		}
+		return ts
 	}
-	return "call"
 }
 
-func c19LeanPairList(xs []string) string {
-	qs := make([]string, len(xs))
-	for i, x := range xs {
-		kv := strings.SplitN(x, "\x00", 2)
-		qs[i] = "(" + strconv.Quote(kv[0]) + ", " + strconv.Quote(kv[1]) + ")"
+/* ---------- stores into the handler's fields ---------- */
+
+func (p *c19Pkg) c19FieldWrites(recvT *types.Named) []string {
+	fields := map[*types.Var]string{}
+	for _, l := range p.structLeaves(recvT) {
+		for _, f := range l.path {
+			fields[f] = l.key
+		}
 	}
-	return "[" + strings.Join(qs, ", ") + "]"
+	var out []string
+	for _, file := range p.files {
+		for _, d := range file.Decls {
+			fd, ok := d.(*ast.FuncDecl)
+			if !ok || fd.Body == nil {
+				continue
+			}
+			params := map[types.Object]bool{}
+			for _, fl := range []*ast.FieldList{fd.Recv, fd.Type.Params} {
+				if fl == nil {
+					continue
+				}
+				for _, f := range fl.List {
+					for _, nm := range f.Names {
+						params[p.info.Defs[nm]] = true
+					}
+				}
+			}
+			// locals that only ever hold a struct allocated in this function
+			localAlloc := map[types.Object]bool{}
+			notAlloc := map[types.Object]bool{}
+			noteAssign := func(l ast.Expr, r ast.Expr) {
+				id, ok := ast.Unparen(l).(*ast.Ident)
+				if !ok {
+					return
+				}
+				obj := p.info.Defs[id]
+				if obj == nil {
+					obj = p.info.Uses[id]
+				}
+				if obj == nil || params[obj] {
+					return
+				}
+				isAlloc := false
+				if r != nil {
+					e := ast.Unparen(r)
+					if u, ok := e.(*ast.UnaryExpr); ok && u.Op == token.AND {
+						e = ast.Unparen(u.X)
+					}
+					if _, ok := e.(*ast.CompositeLit); ok {
+						isAlloc = true
+					}
+					if c, ok := e.(*ast.CallExpr); ok {
+						if id, ok := c.Fun.(*ast.Ident); ok && id.Name == "new" {
+							isAlloc = true
+						}
+					}
+				}
+				if isAlloc {
+					localAlloc[obj] = true
+				} else {
+					notAlloc[obj] = true
+				}
+			}
+			ast.Inspect(fd.Body, func(n ast.Node) bool {
+				if as, ok := n.(*ast.AssignStmt); ok {
+					for i, l := range as.Lhs {
+						if len(as.Lhs) == len(as.Rhs) {
+							noteAssign(l, as.Rhs[i])
+						} else {
+							noteAssign(l, nil)
+						}
+					}
+				}
+				return true
+			})
+			check := func(lhs ast.Expr) {
+				se, ok := ast.Unparen(lhs).(*ast.SelectorExpr)
+				if !ok {
+					return
+				}
+				sel := p.info.Selections[se]
+				if sel == nil || sel.Kind() != types.FieldVal {
+					return
+				}
+				key, ok := fields[sel.Obj().(*types.Var)]
+				if !ok {
+					return
+				}
+				if id, ok := ast.Unparen(se.X).(*ast.Ident); ok {
+					obj := p.info.Uses[id]
+					if obj != nil && localAlloc[obj] && !notAlloc[obj] {
+						return // initialisation of a struct allocated here
+					}
+					if obj != nil {
+						if _, isStruct := obj.Type().Underlying().(*types.Struct); isStruct {
+							return // a local struct VALUE: the store goes into this function's own copy
+						}
+					}
+				}
+				out = append(out, fd.Name.Name+" writes <"+key+">")
+			}
+			ast.Inspect(fd.Body, func(n ast.Node) bool {
+				switch s := n.(type) {
+				case *ast.AssignStmt:
+					for _, l := range s.Lhs {
+						check(l)
+					}
+				case *ast.IncDecStmt:
+					check(s.X)
+				case *ast.UnaryExpr:
+					if s.Op == token.AND {
+						if _, ok := ast.Unparen(s.X).(*ast.SelectorExpr); ok {
+							check(s.X)
+						}
+					}
+				}
+				return true
+			})
+		}
+	}
+	sort.Strings(out)
+	return out
+}
+
+/* ---------- output ---------- */
+
+func c19LeanPaths(paths [][][2]string) string {
+	var ps []string
+	for _, p := range paths {
+		var es []string
+		for _, e := range p {
+			es = append(es, "("+strconv.Quote(e[0])+", "+strconv.Quote(e[1])+")")
+		}
+		ps = append(ps, "["+strings.Join(es, ",\n    ")+"]")
+	}
+	return "[" + strings.Join(ps, ",\n   ") + "]"
 }
 
 func c19LeanStrList(xs []string) string {
@@ -185,115 +664,92 @@ func c19LeanStrList(xs []string) string {
 	return "[" + strings.Join(qs, ", ") + "]"
 }
 
+func c19FindSeverity(n *c19Node) string {
+	if n == nil {
+		return ""
+	}
+	for _, it := range n.items {
+		if (it.kind == "call" || it.kind == "run") && it.callee == "json.Encoder.Encode" && len(it.args) == 1 && it.args[0].k == "struct" {
+			for i, k := range it.args[0].fs {
+				if k == "severity" {
+					return c19Render(it.args[0].a[i])
+				}
+			}
+		}
+	}
+	if s := c19FindSeverity(n.t); s != "" {
+		return s
+	}
+	return c19FindSeverity(n.f)
+}
+
 func genC19Skel(repo string) (string, error) {
-	fset := token.NewFileSet()
-	path := filepath.Join(repo, "logutil", "slogutil", "jsonhybrid.go")
-	f, err := parser.ParseFile(fset, path, nil, 0)
+	p, err := c19Load(repo, "logutil/slogutil")
 	if err != nil {
 		return "", err
 	}
-	methods := map[string]*ast.FuncDecl{}
-	for _, d := range f.Decls {
-		fd, ok := d.(*ast.FuncDecl)
-		if !ok || fd.Body == nil {
-			continue
-		}
-		if fd.Recv == nil {
-			methods["func "+fd.Name.Name] = fd
-			continue
-		}
-		if len(fd.Recv.List) == 1 && c19Expr(fset, fd.Recv.List[0].Type) == "*JSONHybridHandler" {
-			methods[fd.Name.Name] = fd
-		}
+	tn, ok := p.pkg.Scope().Lookup("JSONHybridHandler").(*types.TypeName)
+	if !ok {
+		return "", fmt.Errorf("type JSONHybridHandler not found")
 	}
-	need := func(n string) (*ast.FuncDecl, error) {
-		fd := methods[n]
-		if fd == nil {
-			return nil, fmt.Errorf("%s not found in %s", n, path)
+	recvT, ok := types.Unalias(tn.Type()).(*types.Named)
+	if !ok || p.localStruct(recvT) == nil {
+		return "", fmt.Errorf("JSONHybridHandler is not a struct type of the package")
+	}
+	method := func(name string) (*types.Func, error) {
+		obj, _, _ := types.LookupFieldOrMethod(types.NewPointer(recvT), true, p.pkg, name)
+		fn, ok := obj.(*types.Func)
+		if !ok || p.decls[fn] == nil {
+			return nil, fmt.Errorf("method %s of *JSONHybridHandler not found", name)
 		}
-		return fd, nil
+		return fn, nil
 	}
 
 	var b strings.Builder
 	b.WriteString("namespace GolibsVerif.Gen.C19Skel\n\n")
 
-	// Handle
-	h, err := need("Handle")
+	h, err := method("Handle")
 	if err != nil {
 		return "", err
 	}
-	w := &c19Walker{fset: fset}
-	w.stmts(h.Body.List)
-	if w.err != nil {
-		return "", w.err
+	root, err := p.runPaths(h, c19Configure, nil)
+	if err != nil {
+		return "", err
 	}
-	fmt.Fprintf(&b, "/-- ordered events of `(*JSONHybridHandler).Handle` -/\ndef handle : List (String × String) :=\n  %s\n\n", c19LeanPairList(w.events))
+	fmt.Fprintf(&b, "/-- the paths of `(*JSONHybridHandler).Handle` (helpers inlined), each the list of its events -/\ndef handle : List (List (String × String)) :=\n  %s\n\n", c19LeanPaths(c19Flatten(root)))
+	fmt.Fprintf(&b, "/-- the `severity` member of the object handed to `Encode` -/\ndef severity : String := %s\n\n", strconv.Quote(c19FindSeverity(root)))
 
-	// WithAttrs: a single return of &JSONHybridHandler{...}
-	wa, err := need("WithAttrs")
+	wa, err := method("WithAttrs")
 	if err != nil {
 		return "", err
 	}
-	var fields []string
-	if len(wa.Body.List) != 1 {
-		return "", fmt.Errorf("WithAttrs is not a single return statement any more")
+	root, err = p.runPaths(wa, c19Configure, p.c19HandlerSummary(recvT, p.decls[wa]))
+	if err != nil {
+		return "", err
 	}
-	ret, ok := wa.Body.List[0].(*ast.ReturnStmt)
-	if !ok || len(ret.Results) != 1 {
-		return "", fmt.Errorf("WithAttrs is not a single return statement any more")
-	}
-	un, ok := ret.Results[0].(*ast.UnaryExpr)
-	if !ok {
-		return "", fmt.Errorf("WithAttrs does not return &JSONHybridHandler{…} any more")
-	}
-	cl, ok := un.X.(*ast.CompositeLit)
-	if !ok || c19Expr(fset, cl.Type) != "JSONHybridHandler" {
-		return "", fmt.Errorf("WithAttrs does not return &JSONHybridHandler{…} any more")
-	}
-	for _, e := range cl.Elts {
-		kv, ok := e.(*ast.KeyValueExpr)
-		if !ok {
-			return "", fmt.Errorf("WithAttrs: unkeyed composite literal")
-		}
-		fields = append(fields, c19Expr(fset, kv.Key)+"="+c19Expr(fset, kv.Value))
-	}
-	fmt.Fprintf(&b, "/-- fields of the handler `WithAttrs` returns -/\ndef withAttrs : List String :=\n  %s\n\n", c19LeanStrList(fields))
+	fmt.Fprintf(&b, "/-- the paths of `WithAttrs`; the returned handler is summarised leaf by leaf -/\ndef withAttrs : List (List (String × String)) :=\n  %s\n\n", c19LeanPaths(c19Flatten(root)))
 
-	// Enabled: a single return
-	en, err := need("Enabled")
+	en, err := method("Enabled")
 	if err != nil {
 		return "", err
 	}
-	if len(en.Body.List) != 1 {
-		return "", fmt.Errorf("Enabled is not a single return statement any more")
-	}
-	eret, ok := en.Body.List[0].(*ast.ReturnStmt)
-	if !ok || len(eret.Results) != 1 {
-		return "", fmt.Errorf("Enabled is not a single return statement any more")
-	}
-	fmt.Fprintf(&b, "/-- what `Enabled` returns -/\ndef enabled : String := %s\n\n", strconv.Quote(c19Expr(fset, eret.Results[0])))
-
-	// newJSONHybridMessage: severity := A; if COND { severity = B }
-	nm, err := need("func newJSONHybridMessage")
-	if err != nil {
-		return "", err
-	}
-	var cond string
-	var strs []string
-	ast.Inspect(nm.Body, func(n ast.Node) bool {
-		switch x := n.(type) {
-		case *ast.IfStmt:
-			cond = c19Expr(fset, x.Cond)
-		case *ast.BasicLit:
-			if x.Kind == token.STRING {
-				s, _ := strconv.Unquote(x.Value)
-				strs = append(strs, s)
+	root, err = p.runPaths(en, c19Configure, func(x *c19Exec, vals []*c19Term) []*c19Term {
+		out := make([]*c19Term, len(vals))
+		for i, v := range vals {
+			c, pos := x.canonCond(v)
+			if !pos {
+				c = c19T("not", "", c)
 			}
+			out[i] = x.freeze(c)
 		}
-		return true
+		return out
 	})
-	fmt.Fprintf(&b, "/-- the condition under which `newJSONHybridMessage` replaces the first string by the second -/\ndef severityCond : String := %s\n\n", strconv.Quote(cond))
-	fmt.Fprintf(&b, "def severityStrings : List String := %s\n\n", c19LeanStrList(strs))
+	if err != nil {
+		return "", err
+	}
+	fmt.Fprintf(&b, "/-- the paths of `Enabled` -/\ndef enabled : List (List (String × String)) :=\n  %s\n\n", c19LeanPaths(c19Flatten(root)))
+
+	fmt.Fprintf(&b, "/-- stores into fields of the handler outside the function that allocates the struct -/\ndef fieldWrites : List String := %s\n\n", c19LeanStrList(p.c19FieldWrites(recvT)))
 	b.WriteString("end GolibsVerif.Gen.C19Skel\n")
 	return b.String(), nil
 }
